@@ -52,6 +52,11 @@ static void list_units(const std::string& tier)
         for (const char* r=RULES_REL; *r; ++r) for (int op=0; op<3; op++) printf("sr=R,shape=S3,ra=%c,pairs=fam0,order=fwd,op=%d,distinct=1\n", *r, op);
         for (const char* r=RULES_REL; *r; ++r) printf("sr=R,shape=S3,ra=%c,pairs=famfam,order=fwd\n", *r);
     }
+    // relations over three variables (64 points; diagrams that skip the middle level): operands are "event" relations (single
+    // transitions with identity elsewhere) x unions of two events, and the 1-point structured family squared
+    for (const char* r=RULES_REL; *r; ++r) if (th || *r=='I') for (int op=0; op<3; op++) printf("sr=R,shape=S6,ra=%c,pairs=evev,order=fwd,op=%d\n", *r, op);
+    if (th) for (const char* r=RULES_REL; *r; ++r) for (int op=0; op<3; op++) printf("sr=R,shape=S6,ra=%c,pairs=famfam0,order=fwd,op=%d\n", *r, op);
+    printf("sr=R,shape=S6,mode=unary\n");
     // complement and cross
     for (const char* sh : {"S1","S2","S3","S4","S5","S6"}) printf("sr=S,shape=%s,mode=unary\n", sh);
     for (const char* sh : {"S1","S2","S3"}) printf("sr=R,shape=%s,mode=unary\n", sh);
@@ -69,7 +74,7 @@ static const char* OPN[3] = {"UNION","INTERSECTION","DIFFERENCE"};
 static std::vector<std::string> g_patnames;
 static void fmt_pair(char* buf, size_t n, const long* a)
 {
-    snprintf(buf, n, "%s pattern=%s a=f%ld b=f%ld alias=%ld (bool function numbers are their truth tables, point 0 = bit 0)", OPN[a[0]], g_patnames[a[1]].c_str(), a[2], a[3], a[4]);
+    snprintf(buf, n, "%s pattern=%s a=f%lu b=f%lu alias=%ld (bool function numbers are their truth tables, point 0 = bit 0)", OPN[a[0]], g_patnames[a[1]].c_str(), (unsigned long)a[2], (unsigned long)a[3], a[4]);
 }
 
 static void run_binary(const std::map<std::string,std::string>& spec)
@@ -82,8 +87,9 @@ static void run_binary(const std::map<std::string,std::string>& spec)
     const char* rules = rel ? RULES_REL : RULES_SET;
     std::vector<Pat> pats = patterns(rules, ra);
     long P = s.points(rel);
-    unsigned long U = 1UL<<P;
-    const unsigned long MASK = U-1;
+    const bool big = P>=24;                              // universe not enumerable: operands come from families, built lazily
+    unsigned long U = big ? 0 : 1UL<<P;
+    const unsigned long MASK = P>=64 ? ~0UL : (1UL<<P)-1;
 
     lib_init();
     domain* d = make_domain(s);
@@ -101,7 +107,9 @@ static void run_binary(const std::map<std::string,std::string>& spec)
     std::vector<unsigned long> fam;
     { Kind k; k.rel=rel; k.range='b';
       // fam: rules (1) with <=2 points, (2), (3);  fam0: rule (1) with <=1 point only;  famfam: B x B with B = fam
-      fam = (pairs=="fam0") ? structured_family(k,s,{0,1},1,false) : structured_family(k,s,{0,1},2,true); }
+      fam = (pairs=="fam0" || pairs=="famfam0") ? structured_family(k,s,{0,1},1,pairs=="famfam0") : structured_family(k,s,{0,1},2,true); }
+    std::vector<unsigned long> ev1, ev2; if (pairs=="evev") { ev1 = event_masks(s,false); ev2 = event_masks(s,true); ctx.counters["events"]=(long)ev1.size(); ctx.counters["event_unions"]=(long)ev2.size(); }
+    if (big && pairs!="famfam" && pairs!="famfam0" && pairs!="evev") { declined("shape %s: universe not enumerable, pairs=%s not supported", s.name.c_str(), pairs.c_str()); lib_done(); return; }
     const int only_op = (int)spec_int(spec,"op",-1);
     const bool only_distinct = spec_int(spec,"distinct",0)!=0;
     ctx.counters["universe"] = (long)U;
@@ -125,34 +133,36 @@ static void run_binary(const std::map<std::string,std::string>& spec)
                     if (order=="clr") { A->F->removeAllComputeTableEntries(); }
                     bool threw=false;
                     try {
-                        bop->compute(A->e[i], B->e[j], r);
+                        bop->compute(A->get(i), B->get(j), r);
                     } catch (MEDDLY::error er) { violation("op-error","threw %s (%s:%u)", er.getName(), er.getFile(), er.getLine()); threw=true; }
-                    if (!threw && r != C->e[e]) {
+                    if (!threw && r != C->get(e)) {
                         Table x; read_eval(r,C->k,s,x);
                         violation(tab_eq(C->k,x,C->table(e)) ? "noncanonical-result" : "wrong-result", "result reads [%s], expected f%lu = [%s]", tab_str(x).c_str(), e, tab_str(C->table(e)).c_str());
                     }
-                    if (e!=i && e!=j && e!=0 && e!=MASK) note_nontrivial(hmix(hmix(op,pi), i*U+j));
+                    if (e!=i && e!=j && e!=0 && e!=MASK) note_nontrivial(hmix(hmix(hmix(op,pi), i), j));
                 }
                 // aliasing of the result edge with an operand edge (in-place use)
                 if (A->F==C->F && case_lazy(fmt_pair, op, (long)pi, (long)i, (long)j, 1)) {
-                    dd_edge t(A->e[i]);
-                    try { bop->compute(t, B->e[j], t); if (t != C->e[e]) violation("wrong-result-alias", "with the result edge aliasing operand a: result differs from f%lu", e); }
+                    dd_edge t(A->get(i));
+                    try { bop->compute(t, B->get(j), t); if (t != C->get(e)) violation("wrong-result-alias", "with the result edge aliasing operand a: result differs from f%lu", e); }
                     catch (MEDDLY::error er) { violation("op-error","threw %s (%s:%u)", er.getName(), er.getFile(), er.getLine()); }
                 }
                 if (B->F==C->F && case_lazy(fmt_pair, op, (long)pi, (long)i, (long)j, 2)) {
-                    dd_edge t(B->e[j]);
-                    try { bop->compute(A->e[i], t, t); if (t != C->e[e]) violation("wrong-result-alias", "with the result edge aliasing operand b: result differs from f%lu", e); }
+                    dd_edge t(B->get(j));
+                    try { bop->compute(A->get(i), t, t); if (t != C->get(e)) violation("wrong-result-alias", "with the result edge aliasing operand b: result differs from f%lu", e); }
                     catch (MEDDLY::error er) { violation("op-error","threw %s (%s:%u)", er.getName(), er.getFile(), er.getLine()); }
                 }
                 if (A->F==B->F && i==j && case_lazy(fmt_pair, op, (long)pi, (long)i, (long)j, 3)) {
-                    try { bop->compute(A->e[i], A->e[i], r); if (r != C->e[e]) violation("wrong-result-alias", "with both operands the same edge object: result differs from f%lu", e); }
+                    try { bop->compute(A->get(i), A->get(i), r); if (r != C->get(e)) violation("wrong-result-alias", "with both operands the same edge object: result differs from f%lu", e); }
                     catch (MEDDLY::error er) { violation("op-error","threw %s (%s:%u)", er.getName(), er.getFile(), er.getLine()); }
                 }
             };
             if (pairs=="all") {
                 if (order=="rev") { for (unsigned long i=U; i-- > 0 && !ctx.stop;) for (unsigned long j=U; j-- > 0;) one(i,j); }
                 else for (unsigned long i=0;i<U && !ctx.stop;i++) { for (unsigned long j=0;j<U;j++) one(i,j); if (ctx.viol>ctx.maxviol && ctx.only<0 && ctx.upto<0) break; }
-            } else if (pairs=="famfam") {
+            } else if (pairs=="evev") {
+                for (unsigned long i : ev1) { if (ctx.stop) break; for (unsigned long j : ev2) { one(i,j); one(j,i); } if (ctx.viol>ctx.maxviol && ctx.only<0 && ctx.upto<0) break; }
+            } else if (pairs=="famfam" || pairs=="famfam0") {
                 for (unsigned long i : fam) { if (ctx.stop) break; for (unsigned long j : fam) one(i,j); if (ctx.viol>ctx.maxviol && ctx.only<0 && ctx.upto<0) break; }
             } else {
                 for (unsigned long i=0;i<U && !ctx.stop;i++) { for (unsigned long j : fam) one(i,j); if (ctx.viol>ctx.maxviol && ctx.only<0 && ctx.upto<0) break; }
@@ -178,7 +188,10 @@ static void run_unary(const std::map<std::string,std::string>& spec)
     bool rel = spec_get(spec,"sr")=="R";
     Shape s = shape_by_name(spec_get(spec,"shape"));
     const char* rules = rel ? RULES_REL : RULES_SET;
-    long P = s.points(rel); unsigned long U = 1UL<<P; const unsigned long MASK=U-1;
+    long P = s.points(rel); const bool big = P>=24; unsigned long U = big ? 0 : 1UL<<P; const unsigned long MASK = P>=64 ? ~0UL : (1UL<<P)-1;
+    std::vector<unsigned long> dom;
+    if (!big) for (unsigned long i=0;i<U;i++) dom.push_back(i);
+    else { Kind k; k.rel=rel; k.range='b'; dom = structured_family(k,s,{0,1},1,true); for (unsigned long m : event_masks(s,true)) dom.push_back(m); size_t n=dom.size(); for (size_t i=0;i<n;i++) dom.push_back(~dom[i] & MASK); std::sort(dom.begin(),dom.end()); dom.erase(std::unique(dom.begin(),dom.end()),dom.end()); }
     lib_init();
     domain* d = make_domain(s);
     std::map<std::string,Universe*> objs;
@@ -196,18 +209,18 @@ static void run_unary(const std::map<std::string,std::string>& spec)
         unary_operation* uop = get_uop(COMPLEMENT(), A->F, C->F, "COMPLEMENT");
         if (!uop) continue;
         dd_edge r(C->F);
-        for (unsigned long i=0;i<U;i++) {
+        for (unsigned long i : dom) {
             unsigned long e = ~i & MASK;
             if (case_lazy(fmt_un, *ra, *rc, same, (long)i, 0)) {
                 try {
-                    uop->compute(A->e[i], r);
-                    if (r != C->e[e]) { Table x; read_eval(r,C->k,s,x); violation(tab_eq(C->k,x,C->table(e))?"noncanonical-result":"wrong-result","result reads [%s], expected [%s]", tab_str(x).c_str(), tab_str(C->table(e)).c_str()); }
+                    uop->compute(A->get(i), r);
+                    if (r != C->get(e)) { Table x; read_eval(r,C->k,s,x); violation(tab_eq(C->k,x,C->table(e))?"noncanonical-result":"wrong-result","result reads [%s], expected [%s]", tab_str(x).c_str(), tab_str(C->table(e)).c_str()); }
                 } catch (MEDDLY::error er) { violation("op-error","threw %s (%s:%u)", er.getName(), er.getFile(), er.getLine()); }
                 if (i!=0 && i!=MASK) note_nontrivial(hmix(hmix(*ra,*rc)+same, i));
             }
             if (A->F==C->F && case_lazy(fmt_un, *ra, *rc, same, (long)i, 1)) {
-                try { dd_edge t(A->e[i]); uop->compute(t,t);
-                  if (t != C->e[e]) violation("wrong-result-alias","in-place complement differs from expected"); }
+                try { dd_edge t(A->get(i)); uop->compute(t,t);
+                  if (t != C->get(e)) violation("wrong-result-alias","in-place complement differs from expected"); }
                 catch (MEDDLY::error er) { violation("op-error","threw %s (%s:%u)", er.getName(), er.getFile(), er.getLine()); }
             }
         }
@@ -251,7 +264,7 @@ static void run_cross(const std::map<std::string,std::string>& spec)
                 if (!case_lazy(fmt_cross, *ra, *rb, *rc, (long)i, (long)j)) continue;
                 Table e(s.relPoints());
                 for (long p=0;p<s.relPoints();p++) { decode_rel(s,p,x,xp); long px=encode_set(s,x), py=encode_set(s,xp); e[p] = ((i>>px)&1) && ((j>>py)&1); }
-                try { bop->compute(A->e[i], B->e[j], r); } catch (MEDDLY::error er) { violation("op-error","threw %s (%s:%u)", er.getName(), er.getFile(), er.getLine()); continue; }
+                try { bop->compute(A->get(i), B->get(j), r); } catch (MEDDLY::error er) { violation("op-error","threw %s (%s:%u)", er.getName(), er.getFile(), er.getLine()); continue; }
                 std::string err = check_result(r,kc,s,e);
                 if (!err.empty()) violation(err.compare(0,12,"NONCANONICAL")==0?"noncanonical-result":"wrong-result","%s",err.c_str());
                 if (i && j && i!=U-1 && j!=U-1) note_nontrivial(hmix(hmix(*ra,*rb)+*rc, i*U+j));
